@@ -127,6 +127,12 @@ theorem group_list_sound {fresh : Nat → U} {st : St N U} {nx : Nat} {occs : Li
   refine ⟨?_, ha (n, v) hp⟩
   simp [uuidOf, lookup, St.get, this]
 
+/-- `WF` is needed for the list to have distinct names (a Python dict cannot violate it) -/
+theorem group_list_needs_WF :
+    ∃ out, runOccs (fun n => n + 100) (⟨[], [(7, none), (7, none)]⟩ : St Nat Nat) 0 [] = .ok out ∧
+      ¬ (out.groups.map Prod.fst).Nodup := by
+  refine ⟨_, rfl, ?_⟩; decide
+
 /-- **groups_listed** — every group name that occurs anywhere (any site, including sheet
 `obj_id` records and the old group list) is listed at top level exactly once (names of the
 list are distinct), and every group reference object of the output appears there with
